@@ -8,24 +8,6 @@ EXTENDS BclISA, FiniteSets, TLC, Json
 Batch == ndJsonDeserialize("dumps.ndjson")
 VARIABLES k, pc, depth, bdepth, halted, prog, bnd, dmap
 vars == <<k, pc, depth, bdepth, halted, prog, bnd, dmap>>
-\* forward data flow: the (depth, bdepth) with which each offset is first reached; the invariant Unique then demands that every
-\* path reaches it with exactly these
-Succ(code, w) ==
-  LET ins == Instr(code, w.pc)
-      d2 == w.d + Effect(ins)
-      b2 == w.b + (IF ins.op = "DEFBLOCK" THEN 1 ELSE IF ins.op = "ENDBLOCK" THEN -1 ELSE 0)
-      nx == w.pc + ins.len IN
-  CASE ins.op = "RET" -> <<>>
-    [] ins.op = "JUMP" -> << [pc |-> nx + ins.a, d |-> d2, b |-> b2] >>
-    [] ins.op = "LOOP" -> << [pc |-> nx - ins.a, d |-> d2, b |-> b2] >>
-    [] ins.op = "JFALSE" -> << [pc |-> nx, d |-> d2, b |-> b2], [pc |-> nx + ins.a, d |-> d2, b |-> b2] >>
-    [] OTHER -> << [pc |-> nx, d |-> d2, b |-> b2] >>
-RECURSIVE Flow(_, _, _, _)
-Flow(code, B, work, map) ==
-  IF work = <<>> THEN map
-  ELSE LET w == Head(work) IN
-       IF w.pc \in DOMAIN map \/ w.pc \notin B THEN Flow(code, B, Tail(work), map)
-       ELSE Flow(code, B, Tail(work) \o Succ(code, w), map @@ (w.pc :> [d |-> w.d, b |-> w.b]))
 Init == /\ k \in 1..Len(Batch) /\ pc = 0 /\ depth = 0 /\ bdepth = 0 /\ halted = FALSE
         /\ prog = DecodeProg(Batch[k].dump) /\ bnd = Boundaries(prog.code, 0, {})
         /\ dmap = Flow(prog.code, bnd, << [pc |-> 0, d |-> 0, b |-> 0] >>, <<>>)
@@ -39,21 +21,10 @@ Step == /\ ~halted /\ pc \in bnd
               \/ pc' = pc /\ ins.op = "RET"
         /\ UNCHANGED <<k, prog, bnd, dmap>>
 Spec == Init /\ [][Step]_vars
-IsStr(p, i) == i >= 0 /\ i < Len(p.consts) /\ p.consts[i + 1].t = "str"
 WellFormed ==
-  LET p == prog code == p.code IN
-  /\ TileEnd(code, 0) = Len(code)                       \* the instructions tile the code exactly
+  /\ TileEnd(prog.code, 0) = Len(prog.code)             \* the instructions tile the code exactly
   /\ pc \in bnd                                          \* every path stays on instruction boundaries inside the code
-  /\ LET ins == Instr(code, pc) IN
-     /\ ins.op # "BAD"
-     /\ depth >= NeedsDepth(ins) /\ bdepth >= 0
-     /\ ins.op \in {"GETLOCAL", "SETLOCAL"} => ins.a >= 0 /\ ins.a < depth
-     /\ ins.op = "CONST" => ins.a >= 0 /\ ins.a < Len(p.consts)
-     /\ ins.op \in {"GETFIELD", "SETFIELD", "BIND"} => IsStr(p, ins.a)
-     /\ ins.op = "DEFBLOCK" => IsStr(p, ins.a) /\ IsStr(p, ins.b)
-     /\ ins.op = "BIND" => (ins.b % 16) \in {1, 2, 3, 15} /\ (ins.b - (ins.b % 16)) \in {16, 32} /\ ~((ins.b % 16) = 15 /\ ins.b - 15 = 16)
-     /\ ins.op = "RET" => depth = 0 /\ bdepth = 0 /\ pc + 1 = Len(code)
-     /\ ins.op \in {"GETFIELD", "SETFIELD", "ENDBLOCK"} => bdepth >= 1
+  /\ InstrOk(prog, pc, depth, bdepth)
 \* the depth is a function of the offset: all paths into an instruction agree
 Unique == pc \in DOMAIN dmap /\ depth = dmap[pc].d /\ bdepth = dmap[pc].b
 RoundTrip ==
